@@ -53,6 +53,11 @@ def gen_inputs(ctx):
     for kind, files, root in der:
         wss.append(L.mk_ws(files, root, None, hover=False, completion=False, hints="none"))
         kinds.append(kind)
+    for files, root, expect in symgen.expect_cases(ctx.rng, 16 if ctx.quick else 80):
+        w = L.mk_ws(files, root, None, hover=False, completion=False, hints="none")
+        w["expect"] = expect
+        wss.append(w)
+        kinds.append("expectation")
     return wss, kinds
 
 
@@ -136,12 +141,13 @@ def run(ctx):
     for e, kind in bad_inputs[:3]:
         p, o, what = e["c06"][0]
         files = e["ws"]["files"]
-        if kind != "corpus":
+        if kind not in ("corpus", "expectation"):      # an expectation is tied to byte offsets of the generated text: not shrunk
             pred = still_bad(bindir, lambda w, rr: bool(L.c06_oracle(w, rr)))
             files = L.shrink_files(files, e["ws"]["root"], lambda fs: pred((fs, e["ws"]["root"])), 15)
         ctx.violation("C06 violated on the real analysis: %s@%d %s" % (p, o, what),
                       {"property": "C06", "files": files, "root": e["ws"]["root"], "original_files": e["ws"]["files"],
                        "at": [p, o], "what": what, "all": [list(x) for x in e["c06"][:10]], "seed": ctx.seed, "kind": kind,
+                       "expect": e["ws"].get("expect", []),
                        "violating_workspaces_in_this_run": len(bad_inputs)})
         found = True
     # bridge tie: the symbol-map state that the indexer MODEL of group scope stands for (Indexer.index_ws on the typed Core AST
@@ -227,6 +233,8 @@ def replay(ctx, path):
     bindir = vlib.build_harness(True, bins=["symdump"])
     exe = vlib.build_model("symmap")
     w = L.mk_ws(obj["files"], obj["root"], None, hover=False, completion=False, hints="none")
+    if obj.get("expect"):
+        w["expect"] = obj["expect"]
     e = L.evaluate(bindir, exe, [w])[0]
     r = e["real"]
     print("implementation: analysis problem:", e["c03"])
